@@ -46,6 +46,16 @@ UNIT = {
         m("Heap", "append", extra=[("replace", "let heap_slice =", "let mut heap_slice =", "R7"),
                                     ("replace", "&impl SizedHeap", "&H", "R7"), ("replace", "fn append(", "fn append<H: SizedHeap>(", "R7")]),
         m("Heap", "copy_pstr_within", extra=[("replace", "let slice =", "let mut slice =", "R7")]),
+        {"fn": "scan_slice_to_str_from_start", "file": F_H, "rewrites": STD + [
+            ("replace", "heap_slice .iter() .position(|b| *b == 0u8) .unwrap_or(heap_slice.len())", "first_zero_or_len(heap_slice)", "R6"),
+            ("replace", "&heap_slice[..string_len]", "slice_prefix(heap_slice, string_len)", "R6"),
+            ("replace", "unsafe { std::str::from_utf8_unchecked(str_slice) }", "str_from_bytes(str_slice)", "R6"),
+            ("replace", "HeapStringScan<'_>", "HeapStringScan", "R7")]},
+        m("Heap", "compute_pstr_size", extra=[
+            ("replace", "src: &str", "src: StrRef", "R7"),
+            ("replace", "&src_bytes[1..]", "slice_from(src_bytes, 1)", "R6"),
+            ("replace", "&src_bytes[string.len()..]", "slice_from(src_bytes, string.len())", "R6"),
+            ("replace", "src_bytes.is_empty()", "(src_bytes.len() == 0)", "R6")]),
         m("ReservedHeapSection", "cell_len"),
         m("ReservedHeapSection", "push_cell"),
         m("ReservedHeapSection", "push_pstr_segment", extra=[("replace", "src: &str", "src: StrRef", "R7")]),
